@@ -118,6 +118,13 @@ def fixed_cases():
             yield {'v': [kind, 'words of the comment', ['sub', base, 'plain', inner]], 'width': 30, 'ribbon': 30, 'indent': 4}
             yield {'v': ['list', [[kind, 'words of the comment', ['sub', base, 'plain', inner]], ['int', 0]]], 'width': 30, 'ribbon': 30, 'indent': 4}
     yield {'v': ['tuple', [['cmt', 'x', ['int', 1]]]], 'width': 79, 'ribbon': 71, 'indent': 4}          # D5
+    # a call whose sole container argument carries the comment, under a depth limit (hugging must not depend on the wrapper)
+    nested = ['list', [['list', [['int', 1]]]]]
+    for fn in ('box', 'alt'):
+        for kind in ('cmt', 'tcmt'):
+            for d in (1, 2, 3, 4):
+                yield {'v': ['call', fn, [[kind, 'c', nested]], []], 'width': 79, 'ribbon': 79, 'indent': 4, 'depth': d}
+                yield {'v': ['list', [['call', fn, [[kind, 'c', ['dict', [[['str', 'k'], nested]]]]], []]]], 'width': 30, 'ribbon': 30, 'indent': 4, 'depth': d}
     # namedtuples / SimpleNamespaces carrying a trailing comment themselves (and commented fields)
     for w in (79, 15):
         for kind in ('nt', 'ns'):
